@@ -105,9 +105,29 @@ def run(ctx: Ctx):
                 if key not in shared:
                     from bs4.builder import HTMLParserTreeBuilder
                     shared[key] = HTMLParserTreeBuilder(multi_valued_attributes=None, **({} if store else {"store_line_numbers": False}))
+                b = shared[key]
+                how = r.random()
+                if how < 0.25:
+                    # the setting is an attribute of the builder, read when a document is parsed: switch it on the live instance
+                    # (and back afterwards), or set it in a subclass after the base constructor ran
+                    store = not store
+                    b.store_line_numbers = store
+                    ctx.count("setting-switched-on-live-builder")
+                elif how < 0.4:
+                    from bs4.builder import HTMLParserTreeBuilder as _H
+
+                    class Late(_H):
+                        def __init__(self, want, **kw):
+                            super().__init__(**kw)
+                            self.store_line_numbers = want
+                    store = not store
+                    b = Late(store, multi_valued_attributes=None)
+                    ctx.count("setting-assigned-after-base-constructor")
                 with _w.catch_warnings():
                     _w.simplefilter("ignore")
-                    soup = BeautifulSoup(text, builder=shared[key])
+                    soup = BeautifulSoup(text, builder=b)
+                if how < 0.25:
+                    b.store_line_numbers = (key == "on")
                 ctx.count("shared-builder-instance")
                 prev_text = shared.get(key + ":prev")
                 shared[key + ":prev"] = text
